@@ -301,6 +301,8 @@ class Sym:
             a = self.operand(st, r['a'], blk)
             if r['op'] == 'PtrMetadata':
                 return ('len', a)
+            if r['op'] == 'Not' and self.b.op_ty(r['a']) not in ('bool', '?'):
+                return ('un', 'BitNot', a)
             return fold(('un', r['op'], a))
         if k == 'cast':
             a = self.operand(st, r['a'], blk)
@@ -880,6 +882,16 @@ def by_cstr(mapping):
 
 
 def loop_rows(facts, body, header, env_extra=None, unfold='default'):
+    if env_extra is None and unfold == 'default':
+        cache = facts.__dict__.setdefault('_loop_rows', {})
+        key = (body.path, id(body), header)
+        if key not in cache:
+            cache[key] = _loop_rows(facts, body, header, None, 'default')
+        return cache[key]
+    return _loop_rows(facts, body, header, env_extra, unfold)
+
+
+def _loop_rows(facts, body, header, env_extra=None, unfold='default'):
     """Path summaries of ONE iteration of the natural loop `header` (from the header back to it, to an enclosing header, or
     out of the function). Locals that the loop does not modify are bound to the value they have on arrival at the loop
     (when all arrival paths agree); inner loops are abstracted (havoc + last partial iteration)."""
@@ -1027,16 +1039,20 @@ def simulate(facts, body, inputs, maxiter=64, extra_atoms=None):
         return atoms
 
     def pick(rows, atoms, where):
-        sel = []
-        for r in rows:
-            try:
-                if row_holds(r, atoms):
-                    sel.append(r)
-            except (Unsupported, EvalPanic) as e:
-                raise SimError('%s: a decision cannot be evaluated (%s)' % (where, e))
-        if len(sel) != 1:
-            raise SimError('%s: %d paths selected' % (where, len(sel)))
-        return sel[0]
+        sel = [r for r in rows if row_consistent(r, atoms)]
+        live = [r for r in sel if r.end != 'diverge']
+        if len(live) == 1:
+            return live[0]
+        if not live and len(sel) == 1:
+            return sel[0]
+        unknown = []
+        for r in live:
+            for c, v in r.conds:
+                try:
+                    teval(c, atoms)
+                except (Unsupported, EvalPanic, KeyError, TypeError, IndexError):
+                    unknown.append(cstr(c)[:80])
+        raise SimError('%s: %d paths selected%s' % (where, len(live), (' (undecided: %s)' % sorted(set(unknown))[:3]) if unknown else ''))
 
     def record(r, atoms):
         for e in r.effects:
@@ -1049,7 +1065,7 @@ def simulate(facts, body, inputs, maxiter=64, extra_atoms=None):
                     vals.append(v if isinstance(v, int) else None)
                 except (Unsupported, EvalPanic, KeyError, TypeError):
                     vals.append(None)
-            events.append((short(e[1][1]), e[1][3], vals))
+            events.append((short(e[1][1]), e[1][3], vals, e[1][2], r))
 
     state = {}
     at0 = mk_atoms({}, {})
